@@ -127,6 +127,7 @@ def run_job(name, run, *, timeout_ms=60000, max_paths=20000, prune=True, prune_t
                 why = out.skip_defd(dtag, where) if out.skip_defd else None
                 if why:
                     res["skipped_definedness"].append({"tag": dtag, "where": where, "reason": why})
+                    proved.append(cond)  # not claimed: later obligations are relative to the operation being defined
                     continue
                 r, dt, mdl = solve.check(C, cond, timeout_ms, inputs=inputs, cons=cons + proved)
                 v = {"obligation": f"{tag}/defined:{dtag}@{where}#{di}", "verdict": r, "time_s": round(dt, 3), "kind": "definedness"}
@@ -252,6 +253,8 @@ def validate(run, sampler, real, n, seed, rel=1e-9, abs_=1e-12, check_claims=Tru
                     raise core.HarnessError(f"validation: {k}: length {len(got)} (encoding) vs {len(e)} (real) at {vals}")
                 pairs = zip(got, e)
             else:
+                if isinstance(got, list) and len(got) == 1:
+                    got = got[0]
                 pairs = [(got, e)]
             for g, r in pairs:
                 if isinstance(r, (bool, np.bool_)) or isinstance(g, bool):
